@@ -3,32 +3,25 @@
 mod verif_kani {
     use super::*;
 
-    /// K-getrange (bounded stand-in for the assumed contract O-C05-getrange):
-    /// ring buffers of <= 3 bytes (capacity 4) at every rotation; any pair of bounds; result == model[start..end].
-    #[kani::proof]
-    #[kani::unwind(5)]
-    fn k_getrange() {
-        // build a ring with a symbolic rotation: push `pre` bytes, drop them, push the content
+    /// K-getrange-r* (bounded stand-in for the assumed contract O-C05-getrange): ring buffers of <= 3 bytes
+    /// (capacity 4) at rotation `pre` (one harness per rotation 0..=3); any pair of bounds; result == model[start..end].
+    fn getrange_case(pre: usize) {
         let mut rb = RollingBuffer::new();
         rb.buffer.reserve_exact(4);
-        let pre: usize = kani::any();
-        kani::assume(pre <= 3);
         let mut i = 0;
         while i < pre { rb.buffer.push_back(0xEE); i += 1; }
         let mut i = 0;
         while i < pre { rb.buffer.pop_front(); i += 1; }
         let n: usize = kani::any();
         kani::assume(n <= 3);
-        let content: [u8; 4] = kani::any();
+        let content: [u8; 3] = kani::any();
         let mut i = 0;
         while i < n { rb.buffer.push_back(content[i]); i += 1; }
-        assert_eq!(rb.len(), n);
         let s: usize = kani::any();
         let e: usize = kani::any();
         kani::assume(s <= e && e <= n);
         let sk: u8 = kani::any();
         let ek: u8 = kani::any();
-        // express [s, e) with every bound kind
         let sb = match sk % 3 { 0 => Bound::Included(s), 1 => { kani::assume(s >= 1); Bound::Excluded(s - 1) } _ => { kani::assume(s == 0); Bound::Unbounded } };
         let eb = match ek % 3 { 0 => { kani::assume(e >= 1); Bound::Included(e - 1) } 1 => Bound::Excluded(e), _ => { kani::assume(e == n); Bound::Unbounded } };
         let got = rb.get_range((sb, eb));
@@ -36,4 +29,8 @@ mod verif_kani {
         let mut i = 0;
         while i < e - s { assert_eq!(got[i], content[s + i]); i += 1; }
     }
+    #[kani::proof] #[kani::unwind(5)] fn k_getrange_r0() { getrange_case(0); }
+    #[kani::proof] #[kani::unwind(5)] fn k_getrange_r1() { getrange_case(1); }
+    #[kani::proof] #[kani::unwind(5)] fn k_getrange_r2() { getrange_case(2); }
+    #[kani::proof] #[kani::unwind(5)] fn k_getrange_r3() { getrange_case(3); }
 }
